@@ -93,7 +93,7 @@ static Probe probe(const Plan& plan, const std::string& prop, bool want_stderr =
         close(fds[0]);
         close(efds[0]);
         dup2(efds[1], 2);
-        alarm(240);
+        cpu_alarm(240);
         RunResult r = run_plan(plan, opts_for(prop));
         J o = J::obj();
         o.set("status", r.status);
@@ -488,9 +488,9 @@ static void child_loop(
         fprintf(out, "S %ld %016llx\n", i, (unsigned long long)seed);
         fflush(out);
         Plan plan = generate(prop, seed, tier);
-        alarm(180); // a run that hangs (a cyclic catalog...) is a crash
+        cpu_alarm(180); // a run that hangs (a cyclic catalog...) is a crash
         RunResult r = run_plan(plan, o);
-        alarm(0);
+        cpu_alarm(0);
         total.add(r.st);
         bool fresh_sig = sigs.insert(r.signature).second;
         if (fresh_sig && r.nontrivial)
